@@ -1,5 +1,6 @@
 import Toq.Driver.QJson
 import Toq.Model.Sep
+import Toq.Model.SepCascade
 /-! Driver front end for C15 (PPT / separability verdicts).
 
 Matrices come in the `QJson` dyadic encoding (`{"e":k,"re":[…],"im":[…]}`), rationals as `[num, den]` or an
@@ -18,8 +19,17 @@ integer.  Exact matrices are returned as `{"re":[[num,den],…],"im":[[num,den],
 * `c15_realign   {"dA","dB","X"}`                            → exact realignment `realignE X` (a `dA² × dB²` matrix)
 * `c15_ptrace    {"dA","dB","X"}`                            → `{"A": tr_B X, "B": tr_A X}` (exact marginals `ptrBE`, `ptrAE`)
 * `c15_choi_apply {"dA","dB","dO","sys","J","X"}`            → exact `partial_channel(X, J, sys, [dA, dB])` for a Choi matrix `J` of a map
-  from the `sys`-th party to `dO × dO` matrices (`choiApplyA` for `sys = 1`, `choiApplyB` for `sys = 2`) -/
-open Lean Toq.Sep EMat
+  from the `sys`-th party to `dO × dO` matrices (`choiApplyA` for `sys = 1`, `choiApplyB` for `sys = 2`)
+* `c15_ppt_operand {"N","sys","dim"}`  → the operand of `is_ppt` (`isPptOperand`) on the `N × N` array labelled `i·N + j`:
+  `{"rows","cols","src":[…labels, row-major…]}` or a rejection; `"dim"` is `null`, an integer (scalar), a list (`[dA, dB]` or `[d]`)
+  or `{"two":[[…],[…]]}`
+* `c15_ppt_decide {"herm","lam","tol"}`  → `{"is_ppt","is_npt","tol"}` (`isPptDecide`, `isNptDecide`; `"tol"` null = default)
+* `c15_cascade {"N","dim","tol","q":{…}}` → the statement of `is_separable` that returns (`isSeparableModel`):
+  `{"out":"verdict","branch","verdict","dims","cmps":[[lhs,rhs],…]}`, `{"out":"late",…}` or a rejection `NotPSD` / `InvalidDim` / `ZeroDivision`
+* `c15_blocks2n {"dA","dB","X"}`  → the blocks `A`, `B`, `C` of the `2 ⊗ n` tests (qubit put first) and the homothetic image `H`
+* `c15_symext_decide {"N","level","dim","ppt","tol","q":{…}}` → `{"branch","verdict","dims"}` (`hasSymExtModel`)
+* `c15_ha_params {}` → the parameters `[t, a, b, c]` of the 19 qutrit maps in loop order -/
+open Lean Toq.Sep EMat Toq.PartialOps
 
 namespace Toq.Driver.C15
 
@@ -135,9 +145,115 @@ def hChoiApply : Handler := fun j => do
     let J ← getEMat j "J" (dB * dO) (dB * dO)
     return ematJson (choiApplyB J X)
 
+def getBoolList (j : Json) (k : String) : Except String (List Bool) := do
+  let a ← (← j.getObjVal? k).getArr?
+  a.toList.mapM fun v => match v with
+    | .bool b => pure b
+    | _ => throw s!"field {k}: expected a list of bools"
+
+def parsePTDim (v : Json) : Except String PTDimArg :=
+  match v with
+  | .null => pure .omitted
+  | .arr _ => do pure (.list (← asNatList v))
+  | .obj _ => do
+      let t ← (← v.getObjVal? "two").getArr?
+      if t.size != 2 then throw "two: expected two rows"
+      pure (.two (← asNatList t[0]!) (← asNatList t[1]!))
+  | _ => do pure (.scalar (← v.getNat?))
+
+def hPptOperand : Handler := fun j => do
+  let N ← getNat j "N"
+  let sys ← getInt j "sys"
+  let dim ← parsePTDim (← j.getObjVal? "dim")
+  match isPptOperand (fun i k => i * N + k) N sys dim with
+  | .error e => return reject e.name
+  | .ok (R, C, Y) =>
+    return Json.mkObj [("rows", Json.num R), ("cols", Json.num C), ("src", natListJson (arrayOfMat R C Y).toList)]
+
+def hPptDecide : Handler := fun j => do
+  let herm ← getBool j "herm"
+  let lam ← getRat j "lam"
+  let tol ← if isNull j "tol" then pure none else some <$> getRat j "tol"
+  return Json.mkObj [("is_ppt", Json.bool (isPptDecide herm lam tol)), ("is_npt", Json.bool (isNptDecide herm lam tol)),
+    ("tol", ratJson (pptTol tol))]
+
+def parseSepDim (v : Json) : Except String SepDimArg :=
+  match v with
+  | .null => pure .omitted
+  | .arr a => do
+      if a.size != 2 then throw "dim: expected [dA, dB]"
+      pure (.pair (← a[0]!.getNat?) (← a[1]!.getNat?))
+  | _ => do pure (.scalar (← v.getNat?))
+
+def parseQuant (j : Json) : Except String Quant := do
+  return { psd := ← getBool j "psd", rank := ← getNat j "rank", ppt := ← getBool j "ppt",
+           realignNorm := ← getRat j "realignNorm", zhangNorm := ← getRat j "zhangNorm",
+           purA := ← getRat j "purA", purB := ← getRat j "purB", lam := ← getRatList j "lam",
+           hankelRank := ← getNat j "hankelRank", homPsd := ← getBool j "homPsd", homPpt := ← getBool j "homPpt",
+           normB2 := ← getRat j "normB2", minA := ← getRat j "minA", minC := ← getRat j "minC",
+           absF := ← getRat j "absF", ball := ← getBool j "ball", osr := ← getNat j "osr",
+           haPsd := ← getBoolList j "haPsd" }
+
+def hCascade : Handler := fun j => do
+  let N ← getNat j "N"
+  let dim ← parseSepDim (← j.getObjVal? "dim")
+  let tol ← getRat j "tol"
+  let q ← parseQuant (← j.getObjVal? "q")
+  match isSeparableModel N dim tol q with
+  | .error e => return reject e.name
+  | .ok out =>
+    let dims := match sepDecodeDim N dim with
+      | .ok (a, b) => (a, b)
+      | .error _ => (0, 0)
+    let extra := [("dims", natListJson [dims.1, dims.2]),
+                  ("cmps", Json.arr ((cascadeCmps dims.1 dims.2 tol q).map fun c => Json.arr #[ratJson c.1, ratJson c.2]).toArray)]
+    match out with
+    | .verdict b v => return Json.mkObj ([("out", Json.str "verdict"), ("branch", Json.str b.name), ("verdict", Json.bool v)] ++ extra)
+    | .late => return Json.mkObj ([("out", Json.str "late")] ++ extra)
+
+def blocksJson {n : Nat} (Y : EMat (2 * n) (2 * n)) : Json :=
+  Json.mkObj [("n", Json.num n), ("A", ematJson (blk Y 0 0)), ("B", ematJson (blk Y 0 1)), ("C", ematJson (blk Y 1 1)),
+              ("H", ematJson (homothetic Y))]
+
+def hBlocks2n : Handler := fun j => do
+  let dA ← getNat j "dA"
+  let dB ← getNat j "dB"
+  if dA == 0 || dB == 0 then return reject "ZeroDim"
+  -- `state_t = swap(state, [1, 2], dim) if dim[0] > 2 else state`
+  if dA > 2 then
+    if dB != 2 then return reject "NoQubit"
+    let X ← getEMat j "X" (dA * 2) (dA * 2)
+    return blocksJson (qubitFirst X)
+  else
+    if dA != 2 then return reject "NoQubit"
+    let X ← getEMat j "X" (2 * dB) (2 * dB)
+    return blocksJson X
+
+def hSymExtDecide : Handler := fun j => do
+  let N ← getNat j "N"
+  let level ← getNat j "level"
+  let dim ← parseSepDim (← j.getObjVal? "dim")
+  let ppt ← getBool j "ppt"
+  let tol ← getRat j "tol"
+  let qj ← j.getObjVal? "q"
+  let q : SymQuant := { psd := ← getBool qj "psd", ppt := ← getBool qj "ppt", purB := ← getRat qj "purB",
+                        purRho := ← getRat qj "purRho", detRho := ← getRat qj "detRho", sdpVal := ← getRat qj "sdpVal" }
+  match hasSymExtModel N level dim ppt tol q with
+  | .error e => return reject e.name
+  | .ok (b, v) =>
+    let dims := match sepDecodeDim N dim with
+      | .ok (a, b) => [a, b]
+      | .error _ => []
+    return Json.mkObj [("branch", Json.str b.name), ("verdict", Json.bool v), ("dims", natListJson dims)]
+
+def hHaParams : Handler := fun _ => do
+  return Json.arr (haTs.map fun t => let (a, b, c) := haABC t; Json.arr #[ratJson t, ratJson a, ratJson b, ratJson c]).toArray
+
 def handlers : List (String × Handler) :=
   [("c15_pt", hPt), ("c15_swap", hSwap), ("c15_localconj", hLocalConj), ("c15_sepmix", hSepMix),
    ("c15_lammin", hLamMin), ("c15_ball", hBall), ("c15_ball_eig", hBallEig), ("c15_realign", hRealign),
-   ("c15_ptrace", hPtrace), ("c15_choi_apply", hChoiApply)]
+   ("c15_ptrace", hPtrace), ("c15_choi_apply", hChoiApply), ("c15_ppt_operand", hPptOperand),
+   ("c15_ppt_decide", hPptDecide), ("c15_cascade", hCascade), ("c15_blocks2n", hBlocks2n),
+   ("c15_symext_decide", hSymExtDecide), ("c15_ha_params", hHaParams)]
 
 end Toq.Driver.C15
